@@ -457,5 +457,84 @@ func dirUseDump(root *ggql.Root) (dump string, uses, nulls int) {
 		}
 	}
 	sort.Strings(lines)
-	return strings.Join(lines, "\n"), uses, nulls
+	return strings.Join(lines, "\n") + "\n-- defaults by meaning --\n" + defaultDump(root), uses, nulls
+}
+
+// defaultMeaning: a default value as the number, text, name, list or map it stands for.  Numbers are written by
+// strconv here (shortest text that reads back to the same float64), never by the library's writer, and an integral
+// Float default and the Int it re-parses as are one number: a printer that rounds 0.30000000000000004 to 0.3 keeps
+// introspection and a second print in agreement with themselves, and only the value shows the loss.
+func defaultMeaning(v interface{}) string {
+	switch tv := v.(type) {
+	case nil:
+		return "null"
+	case int:
+		return strconv.FormatFloat(float64(tv), 'g', -1, 64)
+	case int32:
+		return strconv.FormatFloat(float64(tv), 'g', -1, 64)
+	case int64:
+		return strconv.FormatFloat(float64(tv), 'g', -1, 64)
+	case float32:
+		return strconv.FormatFloat(float64(tv), 'g', -1, 64)
+	case float64:
+		return strconv.FormatFloat(tv, 'g', -1, 64)
+	case string:
+		return strconv.Quote(tv)
+	case ggql.Symbol:
+		return "sym:" + string(tv)
+	case bool:
+		return strconv.FormatBool(tv)
+	case []interface{}:
+		var xs []string
+		for _, m := range tv {
+			xs = append(xs, defaultMeaning(m))
+		}
+		return "[" + strings.Join(xs, ",") + "]"
+	case map[string]interface{}:
+		var ks []string
+		for k := range tv {
+			ks = append(ks, k)
+		}
+		sort.Strings(ks)
+		var xs []string
+		for _, k := range ks {
+			xs = append(xs, strconv.Quote(k)+":"+defaultMeaning(tv[k]))
+		}
+		return "{" + strings.Join(xs, ",") + "}"
+	}
+	return fmt.Sprintf("%T:%v", v, v)
+}
+
+// defaultDump: every argument and input-field default of the non-core types, by meaning
+func defaultDump(root *ggql.Root) string {
+	var lines []string
+	fields := func(tn string, fs []*ggql.FieldDef) {
+		for _, f := range fs {
+			for _, a := range f.Args() {
+				if a.Default != nil {
+					lines = append(lines, tn+"."+f.N+"("+a.N+") = "+defaultMeaning(a.Default))
+				}
+			}
+		}
+	}
+	for _, t := range root.Types() {
+		if t.Core() {
+			continue
+		}
+		tn := t.Name()
+		switch tt := t.(type) {
+		case *ggql.Object:
+			fields(tn, tt.Fields())
+		case *ggql.Interface:
+			fields(tn, tt.Fields())
+		case *ggql.Input:
+			for _, f := range tt.Fields() {
+				if f.Default != nil {
+					lines = append(lines, tn+"."+f.N+" = "+defaultMeaning(f.Default))
+				}
+			}
+		}
+	}
+	sort.Strings(lines)
+	return strings.Join(lines, "\n")
 }
